@@ -24,7 +24,8 @@ class Layout:
     """areas: [(z, o, bytes)] -- the generator's own description of the image (any order);
     records: [("ela", z) | ("data", a, bytes) | ("eof",) | ("sla", addr32)] in file order."""
 
-    def __init__(self, areas, records, eol="\n", upper=True, mayrefuse=False, src="model"):
+    def __init__(self, areas, records, eol="\n", upper=True, mayrefuse=False, src="model", size="small"):
+        self.size = size                # size class (spec/AppImage.tla) or "random" / "random-boundary"
         self.areas = [(int(z), int(o), bytes(d)) for (z, o, d) in areas]
         self.records = [tuple(r) for r in records]
         self.eol = eol
@@ -52,14 +53,15 @@ class Layout:
         return True
 
     def klass(self):
-        return "order=%s zones=%s" % ("address" if self.in_address_order() else "shuffled",
-                                      "one" if len(self.zones()) <= 1 else "many")
+        return "order=%s zones=%s size=%s" % ("address" if self.in_address_order() else "shuffled",
+                                              "one" if len(self.zones()) <= 1 else "many", self.size)
 
     def to_json(self):
         return {"areas": [[z, o, d.hex()] for (z, o, d) in self.areas],
                 "records": [[r[0]] + [x.hex() if isinstance(x, (bytes, bytearray)) else x for x in r[1:]]
                             for r in self.records],
-                "eol": self.eol, "upper": self.upper, "mayrefuse": self.mayrefuse, "src": self.src}
+                "eol": self.eol, "upper": self.upper, "mayrefuse": self.mayrefuse, "src": self.src,
+                "size": self.size}
 
     @staticmethod
     def from_json(j):
@@ -70,7 +72,7 @@ class Layout:
             else:
                 recs.append(tuple(r))
         return Layout([(z, o, bytes.fromhex(d)) for (z, o, d) in j["areas"]], recs, j["eol"],
-                      j["upper"], j["mayrefuse"], j.get("src", "replay"))
+                      j["upper"], j["mayrefuse"], j.get("src", "replay"), j.get("size", "small"))
 
 
 def hex_line(rectype, addr, payload):
@@ -176,14 +178,103 @@ def layout_from_model(b, bmap, rng):
     return Layout(areas, recs, eol=rng.choice(["\n", "\r\n"]), upper=rng.random() < 0.7, src="model")
 
 
+def unit_blocks(ulen, rng):
+    """unit id (1-based) -> its real bytes, for a size class of the model"""
+    return {u + 1: rng.randbytes(n) for u, n in enumerate(ulen)}
+
+
+def place_areas(b):
+    """Real start (linear address) of every abstract area of a model layout whose units have the
+    real lengths b["ulen"].  Kept from the abstract image: the order of the areas, a zone boundary
+    crossed (or touched) by an area is crossed (touched) between the same two units, abstractly
+    adjacent areas stay adjacent, the others keep a gap; an area that no longer fits before the next
+    one pushes it up.  Deterministic, so that two files of one image describe the same bytes."""
+    ulen = b["ulen"]
+    areas = sorted(b["areas"], key=lambda a: (a["z"] << 16) + a["o"])
+    out, prev_abs_end, prev_real_end = {}, None, None
+    zone_mult = b["size"] == "zone_multiple"
+    for a in areas:
+        lens = [ulen[u - 1] for u in a["d"]]
+        abs_start = (a["z"] << 16) + a["o"]
+        to_boundary = ZONE - a["o"]                       # units before the zone boundary
+        if to_boundary <= len(a["d"]):
+            start = ((a["z"] + 1) << 16) - sum(lens[:to_boundary])
+        elif zone_mult:
+            start = a["z"] << 16                           # a completely filled zone starts at offset 0
+        else:
+            start = abs_start
+        if prev_real_end is not None:
+            if abs_start == prev_abs_end:
+                start = prev_real_end
+            elif start < prev_real_end + 1:
+                start = prev_real_end + 3
+                if zone_mult:
+                    start = ((prev_real_end >> 16) + 1) << 16
+        if start < 0 or start + sum(lens) > (ZONE << 16):
+            raise ValueError("placement outside the 32-bit address space")
+        out[(a["z"], a["o"])] = start
+        prev_abs_end, prev_real_end = abs_start + len(a["d"]), start + sum(lens)
+    return out
+
+
+def layout_from_model_sized(b, blocks, rng):
+    """A model layout under a size class other than "small": every unit becomes its block of real
+    bytes, every abstract data record a run of real records (1..255 bytes, never over a 64 KiB
+    boundary) written in order, type-04 records wherever the real zone changes (and where the
+    abstract file has a redundant one)."""
+    starts = place_areas(b)
+    unit_addr, areas = {}, []
+    for a in b["areas"]:
+        lin = starts[(a["z"], a["o"])]
+        data = b"".join(blocks[u] for u in a["d"])
+        areas.append((lin >> 16, lin & 0xFFFF, data))
+        for u in a["d"]:
+            unit_addr[u] = lin
+            lin += len(blocks[u])
+    rmax = rng.choice((255, 255, 128, 64, 32))
+    records, wz, abs_zone = [], None, None
+    for r in b["file"]:
+        if r["t"] == "ela":
+            if r["z"] == abs_zone and wz is not None:
+                records.append(("ela", wz))             # the abstract file repeats a zone selection
+            abs_zone = r["z"]
+        elif r["t"] == "data":
+            lin = unit_addr[r["d"][0]]
+            data = b"".join(blocks[u] for u in r["d"])
+            i = 0
+            while i < len(data):
+                z, o = (lin + i) >> 16, (lin + i) & 0xFFFF
+                n = min(rmax, len(data) - i, ZONE - o)
+                if rng.random() < 0.02:
+                    n = rng.randrange(1, n + 1)
+                if z != wz:
+                    records.append(("ela", z))
+                    wz = z
+                records.append(("data", o, data[i:i + n]))
+                i += n
+        elif r["t"] == "eof":
+            records.append(("eof",))
+    return Layout(areas, records, eol=rng.choice(["\n", "\r\n"]), upper=rng.random() < 0.7, src="model",
+                  size=b["size"])
+
+
+def concretise(b, rng, blocks=None, bmap=None):
+    """model layout b (with its size class) -> Layout"""
+    if b["size"] == "small":
+        return layout_from_model(b, bmap or bytemap(rng), rng)
+    return layout_from_model_sized(b, blocks or unit_blocks(b["ulen"], rng), rng)
+
+
 def image_key(b):
     return json.dumps(sorted((a["z"], a["o"], a["d"]) for a in b["areas"]))
 
 
 BOUNDARY_ZONES = (0, 1, 0x7FFF, 0x8000, 0xC0D0, 0xFFFE, 0xFFFF)
+BOUNDARY_LENGTHS = (255, 256, 257, 511, 512, 513, 1023, 1024, 1025, 2047, 2048, 2049, 4095, 4096, 4097,
+                    8191, 8192, 8193, 12288, 16384, 32768, 65535, 65536, 65537)
 
 
-def random_areas(rng, nareas, maxlen):
+def random_areas(rng, nareas, maxlen, boundary=False):
     """1..8 disjoint areas over several 64 KiB zones; some run over a zone boundary, some are
     adjacent to their neighbour, most are separated by gaps."""
     used = []           # (lin_start, lin_end)
@@ -195,10 +286,12 @@ def random_areas(rng, nareas, maxlen):
         tries += 1
         z = rng.choice(zones)
         n = rng.choice((1, 2, 3, rng.randrange(1, maxlen + 1), rng.randrange(1, maxlen + 1)))
+        if boundary and rng.random() < 0.6:
+            n = rng.choice(BOUNDARY_LENGTHS)
         mode = rng.random()
-        if mode < 0.15 and z < 0xFFFF and n >= 2:
+        if mode < 0.15 and z < 0xFFFF and 2 <= n <= ZONE:
             o = ZONE - rng.randrange(1, n)              # runs over the boundary into zone z + 1
-        elif mode < 0.25:
+        elif mode < 0.25 or n > ZONE:
             o = 0
         elif mode < 0.35:
             o = ZONE - n                                 # ends exactly at the boundary
@@ -216,15 +309,18 @@ def random_areas(rng, nareas, maxlen):
         if any(lin < e and s < lin + n for (s, e) in used):
             continue
         used.append((lin, lin + n))
-        areas.append((z, o, bytes(rng.randrange(256) for _ in range(n))))
+        areas.append((z, o, rng.randbytes(n)))
     return areas
 
 
-def random_layout(rng, small=False):
-    nareas = rng.randrange(1, 9)
+def random_layout(rng, small=False, boundary=False):
+    """boundary: a few areas whose lengths sit on / next to powers of two up to 64 KiB"""
+    nareas = rng.randrange(1, 4) if boundary else rng.randrange(1, 9)
     maxlen = 4 if small else rng.choice((8, 40, 300, 700))
     rmax = 3 if small else rng.choice((1, 2, 16, 32, 255, 255))
-    areas = random_areas(rng, nareas, maxlen)
+    if boundary:
+        rmax = rng.choice((255, 255, 64, 16))
+    areas = random_areas(rng, nareas, maxlen, boundary)
     rng.shuffle(areas)
     # cut every area into records of 1..rmax bytes that never run over a zone boundary
     per_area = []
@@ -239,6 +335,8 @@ def random_layout(rng, small=False):
             i += n
         per_area.append(recs)
     order = rng.choice(("address", "areas-shuffled", "reversed", "records-shuffled"))
+    if boundary:
+        order = rng.choice(("address", "address", "areas-shuffled", "areas-shuffled", "records-shuffled"))
     if order == "address":
         flat = sorted((r for recs in per_area for r in recs), key=lambda r: (r[0] << 16) + r[1])
     elif order == "areas-shuffled":
@@ -263,7 +361,8 @@ def random_layout(rng, small=False):
         records.append(("sla", rng.randrange(1 << 32)))  # as ledgerblue's own printer emits
     records.append(("eof",))
     return Layout(areas, records, eol=rng.choice(["\n", "\r\n"]), upper=rng.random() < 0.7,
-                  mayrefuse=implicit, src="random-small" if small else "random")
+                  mayrefuse=implicit, src="random-small" if small else "random",
+                  size="random-boundary" if boundary else "random")
 
 
 # ----------------------------------------------------------------------------------------------
@@ -707,8 +806,9 @@ class Session:
                 pid = {"k": "img", "n": img_by_path[q]}
             else:
                 pid = {"k": "other", "n": self.others.setdefault(q, len(self.others) + 1)}
+            untouched = q in img_by_path and content == self.img_bytes[img_by_path[q]] and q not in opened
             rec = {"path": pid, "kind": "other", "key": 0, "by": 0, "over": 0,
-                   "leak": leaks(content, needles), "w": q in opened}
+                   "leak": False if untouched else leaks(content, needles), "w": q in opened}
             vk = parse_pub(content)
             der = parse_der_sig(content) if vk is None else None
             if q in img_by_path and content == self.img_bytes[img_by_path[q]]:
@@ -863,6 +963,7 @@ def trace_of_layout(tid, layout, reports, hins, small, pareas=None):
     t = {"id": tid, "kind": "layout", "small": bool(small), "mayrefuse": bool(layout.mayrefuse),
          "expected": list(oracle_digest(layout)),
          "reports": [{"via": r["via"], "ok": bool(r["ok"]), "digest": list(r["digest"])} for r in reports],
+         "total": layout.total(), "hinlens": [len(h) for h in hins],
          "areas": [], "file": [], "oin": [], "hins": [], "parsed": pareas is not None, "pareas": []}
     if small:
         t["pareas"] = pareas or []
